@@ -288,7 +288,8 @@ def _find_outputs(v, outs):
         if any(_is_marker_entry(x, True) for x in v):
             outs.append(v)
         for x in v:
-            _find_outputs(x, outs)
+            if not (_is_marker_entry(x, True) or _is_marker_entry(x, False)):
+                _find_outputs(x, outs)
 
 
 def _strip_true(v):
